@@ -3,6 +3,10 @@
 package c13
 
 import (
+	"verif/harness/wproto"
+	"verif/harness/simsolid"
+	"verif/harness/props/c12"
+	"sync"
 	"fmt"
 	"math"
 	"math/rand"
@@ -376,6 +380,85 @@ func runRender(r *runner, work *choice.Source) (fs []Finding) {
 					return
 				}
 			}
+		}
+	}
+	return
+}
+
+// ---------------------------------------------------------------- cold start
+//
+// Several callers use entry points of the library at the same time before anything
+// else has run in the process (this case is the first one of every worker
+// process): whatever the library initialises lazily on first use - lookup tables,
+// package-level caches - is then initialised under contention.  Afterwards every
+// call is repeated alone and must give the same result.
+func runColdStart(r *runner, work *choice.Source) (fs []Finding) {
+	shape3 := simsolid.Gen(work, 3)
+	shape2 := simsolid.Gen(work, 2)
+	salt := work.U64()
+	// (few scheduling points inside Contains: dual contouring asks tens of thousands of times)
+	s3 := &simsolid.Solid3{S: shape3, Salt: salt, YieldEvery: 211}
+	s2 := &simsolid.Solid2{S: shape2, Salt: salt, YieldEvery: 53}
+	ico := model3d.NewMeshIcosphere(model3d.XYZ(0, 0, 0), 1, 2)
+	k := 2 + work.Intn(3)
+	ops := make([]int, k)
+	for i := range ops {
+		ops[i] = work.Intn(7)
+		if i > 0 && work.Chance(1, 2) {
+			ops[i] = ops[0] // the same entry point from several callers
+		}
+	}
+	workers := 1 + work.Intn(8)
+	sticky := work.Intn(4)
+	r.st.Workers = workers
+	r.st.Desc = fmt.Sprintf("coldstart callers=%v workers=%d", ops, workers)
+	exec := func(op int) string {
+		switch op {
+		case 0:
+			return c12.Canon3(model3d.MarchingCubes(s3, shape3.Delta))
+		case 1:
+			return c12.Canon3(model3d.MarchingCubesSearch(s3, shape3.Delta, 2))
+		case 2:
+			return c12.Canon3(model3d.DualContour(s3, shape3.Delta, false, false))
+		case 3:
+			return c12.Canon2(model2d.MarchingSquaresSearch(s2, shape2.Delta/2, 2))
+		case 4:
+			img := (&model2d.Rasterizer{Scale: 12}).RasterizeSolid(s2)
+			return wproto.Hash(img.Pix)
+		case 5:
+			sdf := model3d.MeshToSDF(ico)
+			return fmt.Sprint(fb(sdf.SDF(model3d.XYZ(0.1, 0.2, 0.3))), fb(sdf.SDF(model3d.XYZ(2, 0, 0))), model3d.MeshToCollider(ico).SphereCollision(model3d.XYZ(0, 0, 0.9), 0.3))
+		default:
+			img := render3d.NewImage(3, 3)
+			(&render3d.RayCaster{Camera: render3d.NewCameraAt(model3d.XYZ(0.3, -4, 0.5), model3d.XYZ(0, 0, 0), 0.9),
+				Lights: []*render3d.PointLight{{Origin: model3d.XYZ(2, -3, 4), Color: render3d.NewColor(1)}}}).Render(img, scene())
+			return fmt.Sprint(img.Data)
+		}
+	}
+	got := make([]string, k)
+	if f := r.simN(workers, sticky, map[string]int{"render.workers": workers}, func() {
+		var wg sync.WaitGroup
+		for i := 0; i < k; i++ {
+			wg.Add(1)
+			go func(i int) {
+				defer wg.Done()
+				simsched.Yield("cold.caller", i)
+				got[i] = exec(ops[i])
+			}(i)
+		}
+		simsched.Yield("cold.wait", 0)
+		wg.Wait()
+	}); f != nil {
+		return []Finding{*f}
+	}
+	for i, op := range ops {
+		var want string
+		if f := r.refK(map[string]int{"render.workers": 1}, func() { want = exec(op) }); f != nil {
+			return []Finding{*f}
+		}
+		if want != got[i] {
+			fs = append(fs, Finding{fmt.Sprintf("coldstart|op%d", op), fmt.Sprintf("%s: caller %d (entry point %d) got a different result at the start of the process, among other callers, than the same call alone afterwards", r.st.Desc, i, op)})
+			return
 		}
 	}
 	return
